@@ -685,6 +685,8 @@ SEM_WITNESS = {
     "TYPENAMES:to_readable_type:or": "`fn f(x) = x + 1 J` is echoed as `fn f(x: Energy or Torque) -> Energy or Torque`",
     "TYPENAMES:instantiate_for_printing:fresh-names": "`dimension A`, `unit a: A`, `fn f(x) = x*a` is printed as `fn f<A: Dim>(x: A) -> A²`",
     "STRUCTSUBST:type_from_annotation:sequential": "findings/sem_witnesses.nbt: `hh(2 s)` has type Length and value 2 s",
+    "RESULTLAST:vm:result-of-an-earlier-statement": "`numbat -e '5 m' -e 'print(\"x\")' -e 'let y = 1'` prints `x` and then `5 m`; line by line `5 m` then `x`, and the last input has no result",
+    "CMDWORDS:command-words-are-free-identifiers": "file: `let reset = 5`, `reset`, `let z = reset + 1` succeeds (6); typed into the REPL the second line wipes the session and the third fails",
 }
 
 
@@ -706,7 +708,7 @@ def sem(*prefixes):
 _SEM_MAP = {
     "C01": ("LASTRES", "FNREF", "UNITENV", "POLYLIT", "STRUCTSUBST"),
     "C02": ("STRUCTSUBST",),
-    "C07": ("FNREF", "BATCHSTATE"),
+    "C07": ("FNREF", "BATCHSTATE", "RESULTLAST", "CMDWORDS"),
     "C08": ("LASTRES", "FMTSPEC", "FOREIGNDECL"),
     "C09": ("LASTRES", "FNREF"),
     "C13": ("UNITENV",),
